@@ -110,21 +110,39 @@ struct Pass {
   void L(uint64_t x) { log.push_back(x); }
 
   void bystanders() {
-    // unrelated objects living and working between the subject's calls (differ between environments)
+    // unrelated objects of other configurations living and working between the subject's calls (differ between
+    // environments): anything the library keeps outside the object's own bytes is exposed to them
     for (int k = 0; k < env.nbyst; k++) {
-      if (byst_e.size() < 2 && brng.chance(0.5)) { auto e = std::make_unique<EncNode>(); Layout l; l.fs = kRates[brng.range(0, 4)]; l.ch = (int)brng.range(1, 2); if (e->create(l, brng.next(), -1) == OPUS_OK) byst_e.push_back(std::move(e)); }
+      if (byst_e.size() < 3 && brng.chance(0.5)) {
+        auto e = std::make_unique<EncNode>(); Layout l; l.fs = kRates[brng.range(0, 4)]; l.ch = (int)brng.range(1, 2); l.app = kApps[brng.range(0, 2)];
+        if (e->create(l, brng.next(), -1) == OPUS_OK) {
+          if (brng.chance(0.5)) e->set(OPUS_SET_BITRATE_REQUEST, (int)brng.pick({8000, 16000, 32000, 96000}));
+          if (brng.chance(0.3)) e->set(OPUS_SET_COMPLEXITY_REQUEST, (int)brng.range(0, 10));
+          if (brng.chance(0.3)) e->set(11002, (int)brng.pick({1000, 1001, 1002}));
+          if (brng.chance(0.2)) e->set(OPUS_SET_INBAND_FEC_REQUEST, 1), e->set(OPUS_SET_PACKET_LOSS_PERC_REQUEST, 20);
+          byst_e.push_back(std::move(e));
+        }
+      }
       if (byst_d.size() < 2 && brng.chance(0.5)) { auto d = std::make_unique<DecNode>(); if (d->create_single(kRates[brng.range(0, 4)], (int)brng.range(1, 2), -1) == OPUS_OK) byst_d.push_back(std::move(d)); }
       if (!byst_e.empty()) {
         EncNode &e = *byst_e[brng.range(0, (int64_t)byst_e.size() - 1)];
-        int frame = e.L.fs / 50; std::vector<float> pcm((size_t)frame * e.L.ch);
-        Source s; s.fam = SRC_NOISE; s.amp = 400; s.seed = (int64_t)brng.range(1, 1000);
+        int frame = e.L.fs / (int)brng.pick({100, 50, 50, 25}); std::vector<float> pcm((size_t)frame * e.L.ch);
+        Source s; s.fam = (int)brng.pick({(int)SRC_NOISE, (int)SRC_VOICED, (int)SRC_TONES, (int)SRC_MUSIC, (int)SRC_SILENCE, (int)SRC_SQUARE}); s.amp = (int64_t)brng.pick({50, 400, 900});
+        s.p0 = (int64_t)brng.pick({50, 80, 150, 440, 3000}); s.seed = (int64_t)brng.range(1, 1000);
         src_fill(s, e.L.fs, e.L.ch, (int64_t)brng.range(0, 100000), frame, pcm.data());
-        Bytes pkt; int r = e.encode(pcm.data(), frame, 400, FMT_F32, pkt);
-        if (r > 0 && !byst_d.empty()) { DecNode &d = *byst_d[brng.range(0, (int64_t)byst_d.size() - 1)]; d.decode(pkt.data(), (int)pkt.size(), d.fs / 50, 0, FMT_I16, nullptr); }
+        Bytes pkt; int r = e.encode(pcm.data(), frame, 400, (int)brng.range(0, 2), pkt);
+        if (r > 0 && !byst_d.empty()) {
+          DecNode &d = *byst_d[brng.range(0, (int64_t)byst_d.size() - 1)];
+          int out = (int)((int64_t)frame * d.fs / e.L.fs);
+          if (brng.chance(0.2)) d.decode(nullptr, 0, out, 0, FMT_I16, nullptr); else d.decode(pkt.data(), (int)pkt.size(), out, 0, (int)brng.range(0, 2), nullptr);
+        }
       }
-      if (brng.chance(0.2) && !byst_e.empty()) byst_e.pop_back();
+      if (brng.chance(0.15) && !byst_e.empty()) byst_e.pop_back();
+      if (brng.chance(0.1) && !byst_d.empty()) byst_d.pop_back();
     }
   }
+  // between the calls on two twins (only in the environment that has bystanders, and only sometimes)
+  void between_twins() { if (env.nbyst > 0 && brng.chance(0.35)) bystanders(); }
   void before_call(Twin &t) { g_rand_stream = &t.rs; g_arch_cap = arch_cap; scribble_stack(env.stackpat); }
 
   // SUBJ kind fsidx ch app family cap rseed
@@ -217,6 +235,7 @@ struct Pass {
       Bytes p0; int r0 = 0; opus_uint32 g0 = 0;
       for (size_t i = 0; i < tw.size(); i++) {
         Bytes pk; opus_uint32 rg = 0;
+        if (i) between_twins();
         int r = encode_raw(tw[i], pcm.data(), frame, mb, fmt, pk, &rg);
         if (i == 0) { r0 = r; p0 = pk; g0 = rg; }
         else if (r != r0 || pk != p0 || rg != g0) { if (run.verbose && r > 0 && r0 > 0) { printf("diverge: main toc %02x twin toc %02x; main:", p0[0], pk[0]); for (auto b : p0) printf(" %02x", b); printf("\n twin:"); for (auto b : pk) printf(" %02x", b); printf("\n"); } diverged(i, "packet", strf("ret %d vs %d, len %zu vs %zu, range %08x vs %08x", r, r0, pk.size(), p0.size(), rg, g0)); apply_drop(); if (i < tw.size() && tw[i].role != "ref") i--; }
@@ -246,6 +265,7 @@ struct Pass {
       uint64_t h0 = 0; int r0 = 0; opus_uint32 g0 = 0;
       for (size_t i = 0; i < tw.size(); i++) {
         uint64_t h = 0; opus_uint32 rg = 0;
+        if (i) between_twins();
         int r = decode_raw(tw[i], loss == 1 ? nullptr : pkt.data(), loss == 1 ? 0 : (int)pkt.size(), out, loss == 2, fmt, &h, &rg);
         if (i == 0) { r0 = r; h0 = h; g0 = rg; }
         else if (r != r0 || h != h0 || rg != g0) { diverged(i, "pcm", strf("ret %d vs %d, range %08x vs %08x", r, r0, rg, g0)); apply_drop(); if (i < tw.size() && tw[i].role != "ref") i--; }
@@ -406,4 +426,5 @@ void exec(const Plan &p, Run &run) {
 }
 
 }  // namespace
-REGISTER_SCENARIO(C12, "statesim", gen, exec);
+// fork per run: the result of a run must be a function of its plan alone, also for a tree that keeps hidden process-global state
+REGISTER_SCENARIO_FORK(C12, "statesim", gen, exec);
